@@ -7,6 +7,12 @@ use crate::prelude::*;
 
 verus! {
 
+/// results of the field operations are canonical (needed where fadd/fsub/fmul are hidden)
+pub broadcast proof fn lemma_fadd_range(a: nat, b: nat) ensures #[trigger] fadd(a, b) < P {}
+pub broadcast proof fn lemma_fsub_range(a: nat, b: nat) ensures #[trigger] fsub(a, b) < P {}
+pub broadcast proof fn lemma_fmul_range(a: nat, b: nat) ensures #[trigger] fmul(a, b) < P {}
+pub broadcast group group_frange { lemma_fadd_range, lemma_fsub_range, lemma_fmul_range }
+
 pub proof fn lemma_pow2_pos(e: nat) ensures pow2(e) >= 1 decreases e { if e > 0 { lemma_pow2_pos((e - 1) as nat); } }
 
 pub proof fn lemma_pow2_mono(a: nat, b: nat)
